@@ -9,6 +9,7 @@ package qt
 
 import (
 	"fmt"
+	"math"
 	"sort"
 
 	"github.com/paulmach/orb"
@@ -108,6 +109,20 @@ func (w *World) drawInside(s *core.Source) orb.Point {
 
 func (w *World) drawOutside(s *core.Source) orb.Point {
 	p := w.drawInside(s)
+	if s.Chance(1, 3, "barely") {
+		// the nearest float64 beyond one edge: outside by the smallest possible amount
+		switch s.Intn(4, "outside") {
+		case 0:
+			p[0] = math.Nextafter(w.Bound.Max[0], math.Inf(1))
+		case 1:
+			p[0] = math.Nextafter(w.Bound.Min[0], math.Inf(-1))
+		case 2:
+			p[1] = math.Nextafter(w.Bound.Max[1], math.Inf(1))
+		default:
+			p[1] = math.Nextafter(w.Bound.Min[1], math.Inf(-1))
+		}
+		return p
+	}
 	step := float64(s.Range(1, 32, "outstep")) / grid
 	switch s.Intn(4, "outside") {
 	case 0:
